@@ -54,11 +54,20 @@ func (cache *Cache) evict() {
 	delete(cache.entries, key)
 }
 
-// cacheKey derives the cache key from the message digest, the claimed participants and the
-// signature bytes. The participants are part of the key because the signature bytes alone do
-// not say which replicas the signature claims to come from.
-func cacheKey(digest hotstuff.Hash, signature hotstuff.QuorumSignature) string {
+// The kind of verification a cache entry stands for. It is part of the key: the digest of a batch is the
+// hash of a byte string, and the same signature must not count as verified for that byte string as a
+// single message (or the other way round).
+const (
+	kindSingle byte = iota
+	kindBatch
+)
+
+// cacheKey derives the cache key from the kind of verification, the message digest, the claimed
+// participants and the signature bytes. The participants are part of the key because the signature
+// bytes alone do not say which replicas the signature claims to come from.
+func cacheKey(kind byte, digest hotstuff.Hash, signature hotstuff.QuorumSignature) string {
 	var key strings.Builder
+	_ = key.WriteByte(kind)
 	_, _ = key.Write(digest[:])
 	participants := signature.Participants()
 	var count [4]byte
@@ -78,7 +87,7 @@ func (cache *Cache) Sign(message []byte) (sig hotstuff.QuorumSignature, err erro
 		return nil, err
 	}
 	hash := sha256.Sum256(message)
-	cache.insert(cacheKey(hash, sig))
+	cache.insert(cacheKey(kindSingle, hash, sig))
 	return sig, nil
 }
 
@@ -89,7 +98,7 @@ func (cache *Cache) Verify(signature hotstuff.QuorumSignature, message []byte) e
 		return fmt.Errorf("cannot verify a nil signature")
 	}
 	hash := sha256.Sum256(message)
-	key := cacheKey(hash, signature)
+	key := cacheKey(kindSingle, hash, signature)
 
 	if cache.check(key) {
 		return nil
@@ -122,7 +131,7 @@ func (cache *Cache) BatchVerify(signature hotstuff.QuorumSignature, batch map[ho
 		_, _ = hasher.Write(batch[id])
 	}
 	hasher.Sum(hash[:0])
-	key := cacheKey(hash, signature)
+	key := cacheKey(kindBatch, hash, signature)
 
 	if cache.check(key) {
 		return nil
